@@ -20,6 +20,7 @@ from __future__ import annotations
 
 import ast
 import functools
+import re as _re
 from collections import ChainMap
 
 from .catalogue import DT, Folder, TypeCtor, _ModuleNS, _type_fn
@@ -501,6 +502,8 @@ class Interp(Folder):
             return None
         if v is None:
             raise PyRaise("AttributeError", f"'NoneType' object has no attribute '{a}'", e)
+        if isinstance(v, _re.Pattern) and a in ("sub", "match", "fullmatch", "search", "split", "findall"):
+            return getattr(v, a)
         return super().ev_Attribute(e, env)
 
     def ev_NamedExpr(self, e, env):
@@ -743,7 +746,7 @@ class Interp(Folder):
                 return list(f(*args, **kwargs))
             return _py(lambda: f(*args, **kwargs))
         if callable(f) and getattr(f, "__self__", None) is not None and isinstance(
-            f.__self__, (dict, list, set, str, tuple, DT, type({}.keys()))
+            f.__self__, (dict, list, set, str, tuple, DT, type({}.keys()), _re.Pattern)
         ):
             return _py(lambda: f(*args, **kwargs))
         if callable(f) and getattr(f, "__module__", None) in ("operator", "_operator", "copy", "re"):
@@ -859,8 +862,8 @@ class Interp(Folder):
             if isinstance(o, Obj):
                 o.attrs[target.attr] = value
                 return
-            if isinstance(o, ExcVal):
-                return
+            if isinstance(o, (ExcVal, Term, SymNS)):
+                return  # decorating a third-party object (`lf.name = ...`) has no effect on the term it denotes
             self.err(target, "attribute assignment on unsupported value")
         if isinstance(target, ast.Subscript):
             c = self.ev(target.value, env)
@@ -889,7 +892,13 @@ class Interp(Folder):
                 raise PyRaise(v.name, v.msg, st)
             self.err(st, "raise of a non-exception")
         if isinstance(st, ast.Assert):
-            if not self.ev(st.test, env):
+            try:
+                ok = self.ev(st.test, env)
+                if isinstance(ok, (Term, SymNS)):
+                    return
+            except SymbolicBranch:
+                return  # an assertion about a third-party value is that library's contract: assumed to hold
+            if not ok:
                 raise PyRaise("AssertionError", norm(st.test)[:200], st)
             return
         if isinstance(st, ast.For):
